@@ -613,8 +613,10 @@ func ruleDET3(c *Ctx) []Obligation {
 	if translate == nil || parseString == nil {
 		return []Obligation{{Key: "anchors", Verdict: UNDECIDED, Detail: "asm.translate / asm.ParseString not found"}}
 	}
-	// who calls translate
+	// who calls translate: one core entry point (ParseString today; ParseStringWith when the entry points
+	// take options), whatever it is called
 	var callers []string
+	var core *ssa.Function
 	if node := cg.Nodes[translate]; node != nil {
 		seen := map[string]bool{}
 		for _, in := range node.In {
@@ -622,45 +624,68 @@ func ruleDET3(c *Ctx) []Obligation {
 			if !seen[n] {
 				seen[n] = true
 				callers = append(callers, n)
+				core = in.Caller.Func
 			}
 		}
 	}
 	sort.Strings(callers)
 	o := Obligation{Key: "callers of asm.translate", Pos: c.pos(translate.Pos()), Verdict: OK, Detail: strings.Join(callers, ", ")}
-	if len(callers) != 1 || callers[0] != shortFn(parseString) {
+	if len(callers) != 1 {
 		o.Verdict = VIOL
-		o.Detail = fmt.Sprintf("the translator is entered from %v, not only from ParseString: entry points can differ in what they translate", callers)
+		o.Detail = fmt.Sprintf("the translator is entered from %v, not from one core entry point: entry points can differ in what they translate", callers)
+		core = nil
 	}
 	obs = append(obs, o)
-	for _, name := range []string{"ParseFile", "Parse", "ParseBytes"} {
-		f := get(name)
-		o := Obligation{Key: "asm." + name + " delegates", Verdict: OK}
-		if f == nil {
-			o.Verdict, o.Detail = UNDECIDED, "entry point not found"
-			obs = append(obs, o)
-			continue
-		}
-		o.Pos = c.pos(f.Pos())
-		// direct callees within package asm
-		var callees []string
+	// every exported Parse… function of the package other than the core delegates to exactly one other
+	// function of the package, and the chain ends in the core
+	asmCallees := func(f *ssa.Function) []*ssa.Function {
+		var out []*ssa.Function
 		if node := cg.Nodes[f]; node != nil {
-			seen := map[string]bool{}
-			for _, out := range node.Out {
-				cf := out.Callee.Func
-				if cf.Pkg != nil && cf.Pkg.Pkg.Path() == pkgASM {
-					if n := cf.Name(); !seen[n] {
-						seen[n] = true
-						callees = append(callees, n)
-					}
+			seen := map[*ssa.Function]bool{}
+			for _, e := range node.Out {
+				cf := e.Callee.Func
+				if cf.Pkg != nil && cf.Pkg.Pkg.Path() == pkgASM && !seen[cf] {
+					seen[cf] = true
+					out = append(out, cf)
 				}
 			}
 		}
-		sort.Strings(callees)
-		o.Detail = "calls " + strings.Join(callees, ", ")
-		okDelegate := len(callees) == 1 && (callees[0] == "ParseBytes" || callees[0] == "ParseString")
-		if !okDelegate {
-			o.Verdict = VIOL
-			o.Detail = fmt.Sprintf("%s calls %v within asm; expected a single delegation towards ParseString", name, callees)
+		sort.Slice(out, func(i, j int) bool { return out[i].Name() < out[j].Name() })
+		return out
+	}
+	var entries []string
+	sc := c.pkg(pkgASM).Types.Scope()
+	for _, nm := range sc.Names() {
+		if f, ok := sc.Lookup(nm).(*types.Func); ok && f.Exported() && strings.HasPrefix(nm, "Parse") {
+			entries = append(entries, nm)
+		}
+	}
+	for _, name := range entries {
+		f := get(name)
+		if f == nil || f == core {
+			continue
+		}
+		o := Obligation{Key: "asm." + name + " delegates", Verdict: OK, Pos: c.pos(f.Pos())}
+		cur, chain := f, []string{}
+		for hop := 0; hop < 6 && cur != core; hop++ {
+			cs := asmCallees(cur)
+			if len(cs) != 1 {
+				var ns []string
+				for _, x := range cs {
+					ns = append(ns, x.Name())
+				}
+				o.Verdict = VIOL
+				o.Detail = fmt.Sprintf("%s calls %v within asm; expected a single delegation towards the core entry point %v", cur.Name(), ns, callers)
+				break
+			}
+			cur = cs[0]
+			chain = append(chain, cur.Name())
+		}
+		if o.Verdict == OK && cur != core {
+			o.Verdict, o.Detail = VIOL, fmt.Sprintf("the delegation chain %v does not end in the core entry point %v", chain, callers)
+		}
+		if o.Verdict == OK {
+			o.Detail = "delegates: " + strings.Join(chain, " → ")
 		}
 		obs = append(obs, o)
 	}
